@@ -1,7 +1,7 @@
 from verif.core import Job
 
 UNITS = ["coap_net.c", "coap_session.c", "coap_pdu.c", "coap_option.c", "coap_encode.c", "coap_io.c", "coap_resource.c",
-         "coap_async.c", "coap_str.c", "coap_subscribe.c", "coap_block.c", "coap_cache.c", "coap_proxy.c", "coap_layers.c"]
+         "coap_async.c", "coap_str.c", "coap_subscribe.c", "coap_block.c", "coap_cache.c", "coap_proxy.c", "coap_layers.c", "coap_threadsafe.c"]
 EXTRA = ["common/env.c", "ref/ref_codec.c"]
 # the receive buffer of coap_read_session is shrunk (it is #ifndef-configurable) so that its bytes stay field-sensitive
 UD = ["LIBCOAP_VERIF_NO_PARSE_DUMP", "COAP_RXBUFFER_SIZE=320"]
@@ -44,6 +44,8 @@ def defs(sh, k, c, oversize=False):
     d += ["TEXT%d=%d" % (i, b) for i, b in enumerate(text)]
     if oversize:
         d.append("OVERSIZE")
+    elif BODY >= 8:
+        d.append("MARKER_AT=%d" % (H + TE + TOK))
     return d, T
 
 
@@ -62,13 +64,14 @@ def jobs():
         T = sh[3] + sh[4] + sh[5] + sh[6]
         for k in range(0, T + 2):
             for c in range(1, T + 2 - k + 1):
-                mk(sn, sh, k, c, "quick")
+                quick = sn == "len0-tkl0" or (k in (0, 1, 3, 5) and c in (1, 2, T - k, T + 2 - k))
+                mk(sn, sh, k, c, "quick" if quick else "thorough")
     for sn in ("len8f-tkl0", "len1-tkl13"):
         sh = SHAPES[sn]
         T = sh[3] + sh[4] + sh[5] + sh[6]
         for k in range(0, T + 2):
             for c in range(1, T + 2 - k + 1):
-                quick = k in (1, 2, 3) and c in (1, 2, T - k, T + 2 - k)
+                quick = k in (1, 2) and c in (1, 2, T + 2 - k)
                 mk(sn, sh, k, c, "quick" if quick else "thorough")
     for sn in ("len16f-tkl1", "len2-tkl14"):
         sh = SHAPES[sn]
